@@ -244,7 +244,7 @@ def run_oracle(ctx, pid, sanitize=False):
     for r in recs:
         K = _K()
         K.table = r["table"]
-        if r["res"] == "RUNAWAY":
+        if r["res"] in ("RUNAWAY", "BUDGET"):
             cnt["runaway_runs_skipped"] += 1      # more than 6e4 rule attempts: not a C02/C03 matter, reported in the evidence only
             continue
         fam[r["family"] + "/" + r["ctx"] + "/" + r["res"][:1]] += 1
